@@ -39,6 +39,11 @@ type Violation struct {
 	Arg      json.RawMessage `json:"arg"`
 	Detail   string          `json:"detail"`
 	Phase    string          `json:"phase,omitempty"`
+	// ConcurrentOnly: the violation does not reproduce when the probe is called alone, but does when the same entry points
+	// are called from several goroutines at once (shared mutable state inside the library); Noise holds the other arguments
+	// that were running concurrently.
+	ConcurrentOnly bool              `json:"concurrent_only,omitempty"`
+	Noise          []json.RawMessage `json:"noise,omitempty"`
 }
 
 // KnownFinding identifies a recorded genuine defect by probe, kind and a
@@ -104,6 +109,7 @@ type Run struct {
 
 type replayer interface {
 	replay(arg json.RawMessage) (kind, detail string, err error)
+	stress(arg json.RawMessage, noise []json.RawMessage, goroutines, iterations int) (kind, detail string, err error)
 }
 
 // W is a per-worker context with local counters (flushed when the worker ends).
@@ -308,6 +314,56 @@ func (p *Probe[A]) replay(arg json.RawMessage) (string, string, error) {
 	return k, d, nil
 }
 
+// stress calls the probe on arg from several goroutines at once, mixed with calls on the noise arguments, and reports the
+// first non-empty outcome observed for arg (configuration is installed once, from arg).
+func (p *Probe[A]) stress(arg json.RawMessage, noise []json.RawMessage, goroutines, iterations int) (string, string, error) {
+	var a A
+	if err := json.Unmarshal(arg, &a); err != nil {
+		return "", "", err
+	}
+	others := []A{a}
+	for _, n := range noise {
+		var x A
+		if json.Unmarshal(n, &x) == nil {
+			others = append(others, x)
+		}
+	}
+	if p.setup != nil {
+		p.setup(a)
+	}
+	var mu sync.Mutex
+	var kind, detail string
+	var found atomic.Bool
+	var wg sync.WaitGroup
+	for g := 0; g < goroutines; g++ {
+		g := g
+		wg.Add(1)
+		go func() {
+			defer wg.Done()
+			deadline := time.Now().Add(2 * time.Second) // iterations is a lower bound; keep going for 2 s (rare windows need volume)
+			for i := 0; (i < iterations || i%64 != 0 || time.Now().Before(deadline)) && !found.Load(); i++ {
+				if (i+g)%2 == 0 {
+					if k, d := p.call(a); k != "" {
+						mu.Lock()
+						if kind == "" {
+							kind, detail = k, d
+						}
+						mu.Unlock()
+						found.Store(true)
+					}
+				} else {
+					p.call(others[(i+g)%len(others)])
+				}
+			}
+		}()
+	}
+	wg.Wait()
+	if p.r.Reset != nil {
+		p.r.Reset()
+	}
+	return kind, detail, nil
+}
+
 // Main is the entry point of every check binary.
 func Main(id string, rule string, body func(r *Run)) {
 	tier := flag.String("tier", envOr("VERIF_TIER", "quick"), "quick|thorough")
@@ -410,6 +466,14 @@ func (r *Run) doReplay(path string) int {
 		return 2
 	}
 	kind, detail, err := p.replay(v.Arg)
+	if err == nil && kind == "" && v.ConcurrentOnly {
+		for attempt := 0; attempt < 5 && kind == "" && err == nil; attempt++ {
+			kind, detail, err = p.stress(v.Arg, v.Noise, 16, 4000)
+		}
+		if kind != "" {
+			detail = "(only when called from several goroutines at once) " + detail
+		}
+	}
 	if err != nil {
 		fmt.Fprintln(os.Stderr, err)
 		return 2
@@ -428,6 +492,7 @@ func (r *Run) finish() int {
 	r.violTotal += r.violMore.Load()
 	// classify violations: reproduce 5x through the plain replay path first
 	var unknown []*Violation
+	var unstable []*Violation
 	knownHit := map[string]int{}
 	var knownOrder []*KnownFinding
 	for _, key := range r.violOrder {
@@ -444,6 +509,7 @@ func (r *Run) finish() int {
 			}
 		}
 		if !stable {
+			unstable = append(unstable, v)
 			continue
 		}
 		if k := r.matchKnown(v); k != nil {
@@ -454,6 +520,34 @@ func (r *Run) finish() int {
 			continue
 		}
 		unknown = append(unknown, v)
+	}
+	if len(unknown) == 0 && len(unstable) > 0 {
+		// nothing reproduces when called alone: the violations were seen while the workers called the library concurrently.
+		// Try to reproduce them under concurrent calls (shared mutable state inside the library shows up only then).
+		tried := map[string]int{}
+		for _, v := range unstable {
+			if tried[v.Probe] >= 4 || len(unknown) >= 3 {
+				continue
+			}
+			tried[v.Probe]++
+			var noise []json.RawMessage
+			for _, o := range unstable {
+				if o.Probe == v.Probe && o != v && len(noise) < 6 {
+					noise = append(noise, o.Arg)
+				}
+			}
+			for attempt := 0; attempt < 3; attempt++ {
+				k, d, err := r.probes[v.Probe].stress(v.Arg, noise, 16, 4000)
+				if err == nil && k != "" {
+					v.Kind, v.ConcurrentOnly, v.Noise = k, true, noise
+					v.Detail = "(only when called from several goroutines at once; alone the same call behaves correctly) " + d
+					if r.matchKnown(v) == nil {
+						unknown = append(unknown, v)
+					}
+					break
+				}
+			}
+		}
 	}
 	sort.SliceStable(unknown, func(i, j int) bool { // simplest counterexample first
 		if len(unknown[i].Arg) != len(unknown[j].Arg) {
